@@ -81,6 +81,9 @@ struct vk_shared {
   /* child-side scratch */
   int child_exit_called; /* library code on the forked side called _exit(code+1) */
   int64_t clock_ms;      /* virtual clock, shared so that both sides agree */
+  uint64_t state_digest; /* BFS harnesses: canonical digest of the state reached */
+  int state_terminal;    /* BFS harnesses: do not expand this state */
+  char crashkey[160];    /* violation key to use if the execution process dies */
 };
 
 struct vk_cfg {
